@@ -105,6 +105,12 @@ def cases(seed, tier, shard, nshards):
             note = '\\footnote{Zf%dy same note}' % r.randint(1, 2)
             prefix += 'Fna %s Fnb %s\n\n' % (note, note)
             suffix += '\nFnc %s\n' % note
+        handnum = r.random() < 0.25
+        if handnum:
+            # something numbered by hand (\refstepcounter in running text) with a label behind it, referred to from here and from the
+            # last unit: wherever the label ends up, the links must lead to an element that exists
+            prefix += 'ZqExA \\refstepcounter{zqex}\\label{zqex:1} ZqExB \\ref{zqex:1}\n\n'
+            suffix += '\nZqExC \\ref{zqex:1} \\pageref{zqex:1}\n'
         if use_bib:
             suffix += '\n\\begin{thebibliography}{9}\\bibitem{zk1}%s BibA1z \\bibitem{zk2} BibA2z \\end{thebibliography}\n' % ('\\index{%s}' % r.choice(WORDS) if index_in_bib else '')
         if use_index:
@@ -113,6 +119,8 @@ def cases(seed, tier, shard, nshards):
         pre = '\\usepackage{makeidx}\\makeindex\n' if use_index else ''
         if natbib:
             pre += '\\usepackage[numbers]{natbib}\n'
+        if handnum:
+            pre += '\\newcounter{zqex}\n'
         src = docs.latex(d, extra_preamble=pre, body_prefix=prefix, body_suffix=suffix)
         exp, m = CM.numbers(d, 2)
         number_of = {l: n for k, n, l in exp if l}
